@@ -80,7 +80,8 @@ func raceLogSize() int64 {
 func conv(o object.Object) any {
 	switch v := o.(type) {
 	case nil:
-		return nil
+		// not risor's nil but no object at all: must never reach a script
+		return map[string]any{"gonil": true}
 	case *object.NilType:
 		return nil
 	case *object.Int:
